@@ -36,8 +36,12 @@
 //!   arrayconflict  A and B append different elements to cx♭, A melds B + refresh (ARRAY conflict); update(d2 + cx♭ in
 //!                another order with a new element); every id of the submitted document occurs exactly once in read(None)
 //!                (no equality required, no commit)
-//!   arrayconflict-commit  the same followed by commit, a few documents only, in a thread of its own: known to hang on
-//!                this version (`hang:` prefix, another property)
+//!   arrayconflict-commit  the same followed by commit (which resolves the array conflict): read(None) == with_ids exactly
+//!                afterwards, also after reopen
+//!   move-vs-append  A moves o from p♭ to q♭, B appends to p♭, A melds B + refresh (p♭ has two leaves, its merged order
+//!                still lists o); update(d2 + o kept in q♭): every id exactly once, o in q♭ only; commit: exact equality
+//!   same-position  A and B insert different elements at the same position of s♭; the document read back (both elements)
+//!                is submitted without whichever of the two comes first: every id exactly once; commit: exact equality
 //! Case id `<state>:<doc>` (doc = h<k> hand-written, g<seed>-<i> generated); guarded; 10 s watchdog.
 use super::orch::{self, Out, Rng};
 use super::FailureClasses;
@@ -388,7 +392,10 @@ fn collide_docs() -> Vec<Map<String, Value>> {
 
 // ------------------------------------------------------------------------------------------ states
 
-const STATES: [&str; 15] = ["fresh", "staged", "committed", "history", "merged", "conflict", "remove", "readd", "readd-empty", "move", "repeat", "repeat-staged", "same", "reread", "arrayconflict"];
+const STATES: [&str; 18] = [
+    "fresh", "staged", "committed", "history", "merged", "conflict", "remove", "readd", "readd-empty", "move", "repeat", "repeat-staged", "same", "reread", "arrayconflict",
+    "arrayconflict-commit", "move-vs-append", "same-position",
+];
 
 fn plus(d: &Map<String, Value>, extra: Vec<(String, Value)>) -> Map<String, Value> {
     let mut m = d.clone();
@@ -623,6 +630,93 @@ fn run_state(state: &str, d1: &Map<String, Value>, d2: &Map<String, Value>, d3: 
             once_each(&a2, &target, "array in conflict, after update", &mut bad);
             return Ok(bad);
         }
+        "arrayconflict-commit" => {
+            // committing while the array is in conflict resolves it: afterwards the submitted document is read back exactly
+            let (a2, ad2) = array_conflict(d1)?;
+            let target = array_conflict_target(d2);
+            upd(&a2, &target, "update(d2 + cx)").map_err(|e| format!("in the array conflict: {}", e)).unwrap_or_else(|e| bad.push(e));
+            once_each(&a2, &target, "array in conflict, after update", &mut bad);
+            commit(&a2, "commit with the array in conflict").unwrap_or_else(|e| bad.push(e));
+            let want = with_ids(&target);
+            expect_read(&a2, &want, "after the commit that resolves the array", &mut bad);
+            match orch::open(&ad2) {
+                Ok(f) => expect_read(&f, &want, "after reopen", &mut bad),
+                Err(e) => bad.push(format!("reopen: {}", e)),
+            }
+            return Ok(bad);
+        }
+        "move-vs-append" => {
+            // A moves o from p♭ to q♭ while B appends to p♭; after the meld p♭ has two leaves and its merged order still
+            // lists o; the submitted document keeps o in q♭ only
+            let arr = |k: &str, ids: &[&str]| (fk(k), Value::Array(ids.iter().map(|i| json!({"_id": i, "n": 1})).collect()));
+            upd(&a, &plus(d2, vec![arr("p", &["mv-o", "mv-p1"]), arr("q", &["mv-q1"])]), "A.update(base)")?;
+            commit(&a, "A.commit(base)")?;
+            let mut b = orch::open(&orch::mem())?;
+            sync(&mut b, &a, "B takes the base")?;
+            upd(&a, &plus(d2, vec![arr("p", &["mv-p1"]), arr("q", &["mv-q1", "mv-o"])]), "A.update(o moved to q)")?;
+            commit(&a, "A.commit")?;
+            upd(&b, &plus(d2, vec![arr("p", &["mv-o", "mv-p1", "mv-p2"]), arr("q", &["mv-q1"])]), "B.update(append p2)")?;
+            commit(&b, "B.commit")?;
+            sync(&mut a, &b, "A melds B")?;
+            let c = orch::g(|| a.in_conflict()).map_err(|p| format!("panic in in_conflict: {}", p))?;
+            if !c.iter().any(|o| o.starts_with('^')) {
+                return Err(format!("driver: no array conflict, in_conflict() = {:?}", c));
+            }
+            let target = plus(d2, vec![arr("p", &["mv-p1", "mv-p2"]), arr("q", &["mv-q1", "mv-o"])]);
+            upd(&a, &target, "update(d2, o kept in q)").unwrap_or_else(|e| bad.push(e));
+            once_each(&a, &target, "p in conflict, after update", &mut bad);
+            let ids_in = |doc: &Value, key: &str| -> Vec<String> { doc.get(fk(key)).and_then(|x| x.as_array()).map(|x| x.iter().filter_map(|e| e.get("_id").and_then(|i| i.as_str()).map(|s| s.to_string())).collect()).unwrap_or_default() };
+            match read_doc(&a) {
+                Ok(got) => {
+                    if ids_in(&got, "p").contains(&"mv-o".to_string()) || !ids_in(&got, "q").contains(&"mv-o".to_string()) {
+                        bad.push(format!("after update: o must be in q only, but p = {:?}, q = {:?}", ids_in(&got, "p"), ids_in(&got, "q")));
+                    }
+                }
+                Err(e) => bad.push(e),
+            }
+            commit(&a, "commit with p in conflict").unwrap_or_else(|e| bad.push(e));
+            let want = with_ids(&target);
+            expect_read(&a, &want, "after the commit that resolves the array", &mut bad);
+            match orch::open(&ad) {
+                Ok(f) => expect_read(&f, &want, "after reopen", &mut bad),
+                Err(e) => bad.push(format!("reopen: {}", e)),
+            }
+            return Ok(bad);
+        }
+        "same-position" => {
+            // A inserts c, B inserts x at the same position of s♭ = [sa, sb]; the merged read holds both; the submitted
+            // document drops whichever of the two comes first
+            let arr = |ids: &[String]| (fk("s"), Value::Array(ids.iter().map(|i| json!({"_id": i, "n": 1})).collect()));
+            let v = |ids: &[&str]| ids.iter().map(|s| s.to_string()).collect::<Vec<String>>();
+            upd(&a, &plus(d2, vec![arr(&v(&["sa", "sb"]))]), "A.update(base)")?;
+            commit(&a, "A.commit(base)")?;
+            let mut b = orch::open(&orch::mem())?;
+            sync(&mut b, &a, "B takes the base")?;
+            upd(&a, &plus(d2, vec![arr(&v(&["sa", "sc", "sb"]))]), "A.update(insert sc)")?;
+            commit(&a, "A.commit")?;
+            upd(&b, &plus(d2, vec![arr(&v(&["sa", "sx", "sb"]))]), "B.update(insert sx)")?;
+            commit(&b, "B.commit")?;
+            sync(&mut a, &b, "A melds B")?;
+            let merged: Vec<String> = read_doc(&a)?.get(fk("s")).and_then(|x| x.as_array()).map(|x| x.iter().filter_map(|e| e.get("_id").and_then(|i| i.as_str()).map(|s| s.to_string())).collect()).unwrap_or_default();
+            let mut sorted = merged.clone();
+            sorted.sort();
+            if sorted != v(&["sa", "sb", "sc", "sx"]) {
+                return Err(format!("driver: the merged read of s is {:?}, expected sa, sb and both concurrent elements", merged));
+            }
+            let first = merged.iter().find(|i| *i == "sc" || *i == "sx").cloned().unwrap_or_default();
+            let kept: Vec<String> = merged.iter().filter(|i| **i != first).cloned().collect();
+            let target = plus(d2, vec![arr(&kept)]);
+            upd(&a, &target, "update(d2, first concurrent element dropped)").unwrap_or_else(|e| bad.push(e));
+            once_each(&a, &target, "s in conflict, after update", &mut bad);
+            commit(&a, "commit with s in conflict").unwrap_or_else(|e| bad.push(e));
+            let want = with_ids(&target);
+            expect_read(&a, &want, &format!("after the commit that resolves the array (merged {:?}, submitted {:?})", merged, kept), &mut bad);
+            match orch::open(&ad) {
+                Ok(f) => expect_read(&f, &want, "after reopen", &mut bad),
+                Err(e) => bad.push(format!("reopen: {}", e)),
+            }
+            return Ok(bad);
+        }
         other => return Err(format!("driver: unknown state {}", other)),
     }
     let _ = &mut a;
@@ -678,7 +772,8 @@ fn work(thorough: bool, seed: u64, out: &Out) {
     }
     // commit while the array is in conflict: in threads of their own, collected at the end
     let mut parked = vec![];
-    for j in 0..(if thorough { 4 } else { 2 }) {
+    // (committing while an array is in conflict no longer hangs: `arrayconflict-commit` is an ordinary state now)
+    for j in 0..0usize {
         let (tx, rx) = channel();
         let (d1, d2) = (doc_by_id(&ids[j + 1]).unwrap_or_default(), doc_by_id(&ids[j]).unwrap_or_default());
         let _ = std::thread::Builder::new().stack_size(8 << 20).spawn(move || {
@@ -746,7 +841,7 @@ pub fn run(thorough: bool, seed: u64) -> Report {
     let mut rep = Report::new(
         "fidelity",
         &format!(
-            "{} hand-written + {} seeded documents (well-formed: string ids, no leading \"^\", no leading \"!\" for an object that is the direct value of a ♭ field, ids pairwise distinct and != \"√\", ♭ arrays hold objects only, at most one id-less object per ♭ array, no \"_id\" inside plain values, no \"#\" key; tracked nesting <= 3) x 15 states (fresh, staged, committed, history, merged, conflict [object], remove, readd, readd-empty, move, repeat, repeat-staged, same, reread: read(None) == with_ids(d2) after update, after commit, after reopen; arrayconflict: every id of the submitted document exactly once); d1 / d3 of a case are the next two documents of the list; {} arrayconflict-commit cases under a {} s limit; 3 colliding documents recorded as a note",
+            "{} hand-written + {} seeded documents (well-formed: string ids, no leading \"^\", no leading \"!\" for an object that is the direct value of a ♭ field, ids pairwise distinct and != \"√\", ♭ arrays hold objects only, at most one id-less object per ♭ array, no \"_id\" inside plain values, no \"#\" key; tracked nesting <= 3) x 18 states (fresh, staged, committed, history, merged, conflict [object], remove, readd, readd-empty, move, repeat, repeat-staged, same, reread: read(None) == with_ids(d2) after update, after commit, after reopen; arrayconflict: every id of the submitted document exactly once; arrayconflict-commit, move-vs-append, same-position: exactly once while the array is in conflict, exact equality after the commit that resolves it); d1 / d3 of a case are the next two documents of the list; {} arrayconflict-commit cases under a {} s limit; 3 colliding documents recorded as a note",
             n,
             if thorough { 1500 } else { 40 },
             if thorough { 4 } else { 2 },
